@@ -105,16 +105,22 @@ def three_writers(chk, quick):
                                       f"threads, {kind} store, {label}: first operation stopped at '{point}', the two others "
                                       f"started, then resumed: results {res}, members {sorted(final)} — none of the six "
                                       f"sequential orders gives this", rep)
-                    lines = model_lines({"a.ics": "ua", "d.ics": "ud"}, pre, ops)
-                    lines.append("qrun threads %s %s" % (kind, ",".join(map(str, r["order"]))))
-                    out = run_driver("conc", lines)[-1]
-                    want = "res=%s final==%s ser=%s" % (
-                        ";".join(x if not x.startswith("failed") else "failed" for x in res),
-                        ",".join("%s:%s" % (penc(n), penc(e)) for n, e in sorted(final.items())), "1" if ok else "0")
-                    chk.count("model-schedules-compared")
-                    if out != want:
-                        chk.broke(f"correspondence concurrency model (threads, {kind}, three writers)",
-                                  f"{label}: first stopped at '{point}': the code gives `{want}`, the model `{out}`", rep)
+                # ---- the model: threads of one process execute atomically, so its outcomes are the six
+                # sequential ones; each must be what the real code gives when run in that order
+                if seq is not None:
+                    for (o, sres, sfinal) in seq:
+                        lines = model_lines({"a.ics": "ua", "d.ics": "ud"}, pre, ops)
+                        lines.append("qrun threads %s %s" % (kind, ",".join(map(str, o))))
+                        out = run_driver("conc", lines)[-1]
+                        want = "res=%s final==%s ser=1" % (
+                            ";".join(sres[j] if not sres[j].startswith("failed") else "failed" for j in (0, 1, 2)),
+                            ",".join("%s:%s" % (penc(n), penc(e)) for n, e in sorted(sfinal.items())))
+                        chk.count("model-schedules-compared")
+                        if out != want:
+                            chk.broke(f"correspondence concurrency model (threads, {kind}, three writers)",
+                                      f"{label}: order {list(o)}: the code gives `{want}`, the model `{out}`",
+                                      {"level": "store", "mode": "threads", "backend": kind, "scenario": label, "ops": ops,
+                                       "order": list(o)})
             chk.traces_validated += 1
 
 
